@@ -13,6 +13,18 @@ for line in out.splitlines():
     if m:
         res.setdefault(m.group(1), {'status': 'DETECTED', 'findings': []})['findings'].append(m.group(2))
 why_missed = {
+ 'C13-A': 'SUPERSEDED: the change made the Go output depend on the iteration order of Generate\'s range over PacketsMap; since fix 5c980ab the generator visits the packets in name order, so the changed tree is deterministic (C13/map-order reported it on the tree before the fix)',
+ 'C13-Ar3': 'SUPERSEDED by fix 5c980ab (same mechanism as C13-A: state carried across the iterations of Generate\'s range over PacketsMap)',
+ 'C13-Br2': 'SUPERSEDED by fix 5c980ab (same mechanism as C13-A)',
+ 'C02-Ar5': 'value-level: the Java encoder writes the list count with the big-endian accessor on every path (the little-endian branch was merged away); the cell still depends on LittleEndian through the elements, the count write of the "empty list" branch never did. Reported under C01/enc-sensitivity (the encode cell java/enc/*/list loses its prefix-in-byte-order dependence), not under C02',
+ 'C04-Ar5': 'value-level: emitted Java arithmetic measures from the placeholder instead of from the start of the target (same family as C04-A)',
+ 'C04-Br5': 'emitted-Go aliasing: the back-patch goes through a slice of buf.Bytes() taken before the target was encoded; a reallocation leaves it pointing at the old array. Needs Go semantics of the emitted program',
+ 'C06-Ar5': 'value-level: the emitted Rust write takes self.<field> instead of the computed val; both are constants of the generator',
+ 'C06-Br5': 'value-level: the emitted Python mask is computed from the size in bytes instead of bits',
+ 'C11-Br5': 'index into a slice of results by the position in the full table; rule I decides constant indices only. Reported under C16/compile (the write is not behind the err == nil edge of its own generator)',
+ 'C15-Ar5': 'emitted-Lua data flow: the offset returned by a nested dissector is dropped for repeated inline objects - the part of C15 that is declared not decided',
+ 'C17-Ar5': 'emitted-Python name resolution: __all__ stops the star import from re-exporting ByteBuf; needs Python import semantics',
+ 'C17-Br5': 'emitted-Java typing: a long length handed to readCharSequence(int, ..); needs a Java front end',
  'C02-Ar4': 'emitted-Python data flow: decode() returns self except in the early exit for a packet without fields, callers now store the result; a property of the emitted program (which def returns what)',
  'C02-Br4': 'emitted-Python semantics: a mutable default argument ([]) shared by every instance; needs Python evaluation rules, not a relation between the generator and the model',
  'C03-Br4': 'value-level: the minimum-size estimate emitted as the Rust decoder\'s refusal threshold counts a repeated object as one mandatory element; detected under C11 (R-bounded-recursion: the estimate recurses over packet references without a visited set), not under C03',
